@@ -149,6 +149,23 @@ def run(ctx):
             if got and not lit:
                 ctx.counterexample('NODOTDIR: %r matches %r although the `.`/`..` segment is not written literally' % (pat, name),
                                    {'name': name, 'pattern': pat, 'flags': 'NODOTDIR|DOTGLOB|EXTGLOB'})
+    # ... and the pathlib front end hands NODOTDIR on (it keeps `..` segments; `.` segments are normalised away)
+    from wcmatch import pathlib as PLm
+    for name in ('..', 'a/..', '../a', 'a/../b', '../..'):
+        for pat in ('.*', '.?', '..*', '..', 'a/.*', 'a/..', '../a', '.*/a', '@(.*)', 'a/.*/b', '*/.*', '.*/.*'):
+            for meth in ('globmatch', 'match', 'full_match'):
+                n += 1
+                fvp = PLm.NODOTDIR | PLm.DOTGLOB | PLm.EXTGLOB
+                got = getattr(PLm.PurePosixPath(name), meth)(pat, flags=fvp)
+                want = Gm.globmatch(name, pat, flags=Gm.NODOTDIR | Gm.DOTGLOB | Gm.EXTGLOB | Gm.FORCEUNIX) if meth != 'match' else None
+                if meth == 'match':
+                    # recursive match: the pattern may match a tail of the path; without magic prefix handling compare on equal depth only
+                    if len(name.split('/')) != len(pat.split('/')):
+                        continue
+                    want = Gm.globmatch(name, pat, flags=Gm.NODOTDIR | Gm.DOTGLOB | Gm.EXTGLOB | Gm.FORCEUNIX)
+                if got != want:
+                    ctx.counterexample('PurePosixPath(%r).%s(%r, NODOTDIR|DOTGLOB|EXTGLOB) = %r, glob.globmatch gives %r' % (name, meth, pat, got, want),
+                                       {'name': name, 'pattern': pat, 'method': meth, 'flags': 'NODOTDIR|DOTGLOB|EXTGLOB'})
     ctx.counted('exclusion-as-DOTGLOB and NODOTDIR probes', n, n // 2, [{'name': '.x', 'exclude': '*'}])
 
     # ---- real trees: patterns without a written leading dot never return (or walk through) a hidden entry --------------
